@@ -82,11 +82,12 @@ type Worker struct {
 	nondetSeq map[string]int
 	opqSeq    int
 	observed  []ObsRec
-	asserts   []assertRec
+	events    []pathEvent
 	reached   []string
 	trace     []string
 	expectPanic bool
 	lastClock   *Term
+	fixedPos    int
 
 	// globals (persist across paths; stores are undo-logged)
 	globals   map[*ssa.Global]*value
@@ -103,9 +104,11 @@ type Worker struct {
 	st     workerStats
 }
 
-type assertRec struct {
+type pathEvent struct {
+	kind  string // ASSERT | REACH | OBS
 	label string
-	cond  value
+	val   value
+	typ   types.Type
 }
 
 func newWorker(prog *Program, ex *Explorer, id int) *Worker {
@@ -216,11 +219,12 @@ func (w *Worker) runPath(prefix []Decision) {
 	w.nondetSeq = map[string]int{}
 	w.opqSeq = 0
 	w.observed = nil
-	w.asserts = nil
+	w.events = nil
 	w.reached = nil
 	w.trace = nil
 	w.expectPanic = false
 	w.lastClock = nil
+	w.fixedPos = 0
 	w.tt = NewTermTable()
 	w.solver.Reset()
 	w.sched.reset(w)
@@ -401,18 +405,58 @@ func (w *Worker) maybeSample(end string) {
 	}
 	s := &Sample{Decisions: decString(w.decs), Model: model, Choices: append([]uint64{}, w.choices...), End: end, Reach: append([]string{}, w.reached...)}
 	memo := map[int32]uint64{}
-	for _, a := range w.asserts {
-		holds := true
-		switch c := a.cond.(type) {
-		case bool:
-			holds = c
-		case *Term:
-			holds = c.Eval(model, memo) != 0
+	for _, e := range w.events {
+		switch e.kind {
+		case "ASSERT":
+			holds := true
+			switch c := e.val.(type) {
+			case bool:
+				holds = c
+			case *Term:
+				holds = c.Eval(model, memo) != 0
+			}
+			if holds {
+				s.Events = append(s.Events, "ASSERT "+e.label+" ok")
+			} else {
+				s.Events = append(s.Events, "ASSERT "+e.label+" FAIL")
+			}
+		case "REACH":
+			s.Events = append(s.Events, "REACH "+e.label)
+		case "OBS":
+			s.Events = append(s.Events, "OBS "+e.label+" "+evalToString(e.typ, e.val, model, memo))
 		}
-		s.Asserts = append(s.Asserts, AssertRec{Label: a.label, Holds: holds})
 	}
-	s.Observed = w.evalObserved(model)
 	w.ex.addSample(s)
+}
+
+// evalToString renders a (possibly symbolic) scalar under a model the way fmt's %v prints it.
+func evalToString(t types.Type, v value, model map[string]uint64, memo map[int32]uint64) string {
+	switch x := v.(type) {
+	case *Term:
+		c := x.Eval(model, memo)
+		if t != nil {
+			if _, ok := t.Underlying().(*types.Basic); ok {
+				return fmt.Sprint(fromBits(t, c))
+			}
+		}
+		return fmt.Sprint(c)
+	case *symStr:
+		bs := make([]byte, len(x.b))
+		for i, b := range x.b {
+			switch b := b.(type) {
+			case uint8:
+				bs[i] = b
+			case *Term:
+				bs[i] = byte(b.Eval(model, memo))
+			}
+		}
+		return string(bs)
+	case iface:
+		return evalToString(x.t, x.v, model, memo)
+	case bool, int, int8, int16, int32, int64, uint, uint8, uint16, uint32, uint64, uintptr, float32, float64, string:
+		return fmt.Sprint(x)
+	}
+	return "?"
 }
 
 func (w *Worker) evalObserved(model map[string]uint64) []ObsRec {
